@@ -1,5 +1,6 @@
 import RpmVerif.Model.Utf8
 import RpmVerif.Gen.Constants
+import RpmVerif.Gen.AllocSites
 /-!
 # L1/L2: lead and header (index + store) — model of `src/rpm/headers/{lead,header}.rs`
 
@@ -151,6 +152,137 @@ def parseHeader (bs : Bytes) : Out (Header × Bytes) := do
   let es ← decodeAll store raw
   pure (⟨n, dl, es, store⟩, rest)
 
+/-! ## what the reader asks the allocator for (`Header::parse`, `parse_header`, `parse_entry_data_number`, `parse_binary_entry`)
+
+The functions above say WHAT is decoded; these say how much memory the same Rust statements request while doing it —
+for every input, also one that is rejected half way. Sizes of the Rust values are those of a 64-bit target
+(`String` = `Vec<u8>` = 24 bytes, `IndexEntry<T>` = 48 bytes). The expressions that size a request from untrusted
+fields are not typed in here: they are scraped from the source (`Gen/AllocSites.lean`, tools/gen/alloc_sites.py). -/
+
+/-- `parse_entry_data_number`: `items.reserve_exact(<scraped expression>)` — ELEMENTS reserved before the loop reads a
+single item (so also when the loop then fails); `remLen` = `input.len()`, the store bytes from the entry's offset on -/
+def reserveOf (cnt remLen : Nat) : Nat := reserveArg cnt remLen
+
+/-- size in bytes of one element of the vector a numeric entry is decoded into (`u16`, `u32`, `u64`) -/
+def elemBytes : Nat → Nat
+  | 3 => 2 | 4 => 4 | 5 => 8 | _ => 1
+
+/-- bytes one `decode` call requests UP FRONT, before it has looked at the data. Only the three numeric types reserve;
+`parse_binary_entry` checks `input.get(..num_items)` first and `extend_from_slice`s what it found, strings are pushed
+one by one (both are accounted in `IndexData.keptBytes` of what was really decoded). -/
+def decodeReserve (store : Bytes) (ty off cnt : Nat) : Nat :=
+  if off ≥ 2147483648 ∨ off > store.length then 0 else
+  match ty with
+  | 3 => elemBytes 3 * reserveOf cnt (store.length - off)
+  | 4 => elemBytes 4 * reserveOf cnt (store.length - off)
+  | 5 => elemBytes 5 * reserveOf cnt (store.length - off)
+  | _ => 0
+
+/-- size of a Rust `String` / `Vec` value itself (pointer, capacity, length) -/
+def STRING_HEADER_BYTES : Nat := 24
+/-- `size_of::<IndexEntry<T>>()`: tag, `IndexData` (discriminant + a `Vec`), offset, count -/
+def INDEX_ENTRY_VALUE_BYTES : Nat := 48
+
+/-- bytes of heap data a decoded value keeps alive (contents; plus the 24-byte `String` value per array element) -/
+def IndexData.keptBytes : IndexData → Nat
+  | .null => 0
+  | .char d => d.length | .int8 d => d.length | .bin d => d.length
+  | .int16 l => 2 * l.length | .int32 l => 4 * l.length | .int64 l => 8 * l.length
+  | .str s => s.length
+  | .strArray l => (l.map fun s => STRING_HEADER_BYTES + s.length).sum
+  | .i18n l => (l.map fun s => STRING_HEADER_BYTES + s.length).sum
+
+/-- heap data a `Header` value keeps besides its store: the decoded copy of every entry's data -/
+def Header.keptBytes (h : Header) : Nat := (h.entries.map fun e => e.data.keptBytes).sum
+
+/-- the `decode` calls the second loop of `parse_header` makes: it returns at the first entry it rejects -/
+def decodeCalls (store : Bytes) : List (Nat × Nat × Nat × Nat) → List (Nat × Nat × Nat × Nat)
+  | [] => []
+  | (tag, ty, off, cnt) :: r =>
+    match decode store ty off cnt with
+    | .ok _ => (tag, ty, off, cnt) :: decodeCalls store r
+    | _ => [(tag, ty, off, cnt)]
+
+/-- bytes of the `String`s a string-array entry has pushed when its loop ends — by reaching the count, or by meeting a
+string without terminator (the entry is then rejected, but the strings before it were built) -/
+def stringsPushed : Nat → Bytes → Nat
+  | 0, _ => 0
+  | k + 1, bs =>
+    match (takeTill0 bs).2 with
+    | [] => 0
+    | _ :: rest' => STRING_HEADER_BYTES + (Utf8.lossy (takeTill0 bs).1).length + stringsPushed k rest'
+
+/-- what a REJECTED `decode` call had built when it failed, beyond its up-front reservation: the strings of a string
+array (numbers are pushed into the reserved capacity; `parse_binary_entry` allocates only after its bounds check) -/
+def decodePartial (store : Bytes) (ty off cnt : Nat) : Nat :=
+  if off ≥ 2147483648 ∨ off > store.length then 0 else
+  match ty with
+  | 8 => stringsPushed cnt (store.drop off)
+  | 9 => stringsPushed cnt (store.drop off)
+  | _ => 0
+
+/-- decoded bytes alive when the second loop ends (normally or by rejection) -/
+def keptOfCalls (store : Bytes) : List (Nat × Nat × Nat × Nat) → Nat
+  | [] => 0
+  | (_, ty, off, cnt) :: r =>
+    match decode store ty off cnt with
+    | .ok d => d.keptBytes + keptOfCalls store r
+    | _ => decodePartial store ty off cnt
+
+/-- index entries the first loop of `parse_header` has pushed when it ends (it stops at an unknown data type) -/
+def rawPushed : Nat → Bytes → Nat
+  | 0, _ => 0
+  | k + 1, bs =>
+    match parseEntryRaw bs with
+    | .ok (_, r) => 1 + rawPushed k r
+    | _ => 0
+
+/-- what one `Header::parse` call requested, whatever its outcome -/
+structure ParseAcct where
+  /-- capacity `buf` is created with (0: `Vec::new()`) -/
+  upFront : Nat
+  /-- bytes `take(size_rest).read_to_end(&mut buf)` appended to `buf` -/
+  buffered : Nat
+  /-- `Vec::from(bytes)`: the store copy -/
+  storeCopy : Nat
+  /-- `IndexEntry` values pushed by the first loop -/
+  entries : Nat
+  /-- bytes reserved up front by each `decode` call, in call order -/
+  reserves : List Nat
+  /-- decoded data alive at the end of the second loop -/
+  kept : Nat
+  deriving Repr, DecidableEq
+
+/-- `Header::parse`, statement by statement, as an allocation account (same control flow as `parseHeader`) -/
+def parseHeaderAcct (bs : Bytes) : ParseAcct :=
+  match takeN INDEX_HEADER_SIZE bs with
+  | .ok (intro, r) =>
+    match parseIntro intro with
+    | .ok (n, dl) =>
+      let want := sizeRest dl n
+      let up := parseBufUpFront dl n want
+      -- `read_to_end` behind `take(size_rest)`: never more than `size_rest`, never more than is there
+      let got := if parseReadBounded then Nat.min want r.length else r.length
+      match takeN want r with
+      | .ok (body, _) =>
+        match parseEntriesRaw n body with
+        | .ok (raws, store) =>
+          let calls := decodeCalls store raws
+          ⟨up, got, store.length, n, calls.map (fun c => decodeReserve store c.2.1 c.2.2.1 c.2.2.2), keptOfCalls store raws⟩
+        | _ => ⟨up, got, 0, rawPushed n body, [], 0⟩
+      | _ => ⟨up, got, 0, 0, [], 0⟩
+    | _ => ⟨0, 0, 0, 0, [], 0⟩
+  | _ => ⟨0, 0, 0, 0, [], 0⟩
+
+/-- the largest single request of the account, in bytes -/
+def ParseAcct.maxSingle (a : ParseAcct) : Nat :=
+  (a.reserves.foldl Nat.max 0) |>.max a.upFront |>.max a.buffered |>.max a.storeCopy |>.max (INDEX_ENTRY_VALUE_BYTES * a.entries)
+
+/-- bytes alive together at the end of `parse_header`: buffer, store copy, entry values, decoded data, and one
+reservation (that of a call which then failed is not part of `kept`) -/
+def ParseAcct.live (a : ParseAcct) : Nat :=
+  Nat.max a.upFront a.buffered + a.storeCopy + INDEX_ENTRY_VALUE_BYTES * a.entries + a.kept + a.reserves.foldl Nat.max 0
+
 /-- `Header::write` -/
 def writeHeader (h : Header) : Bytes :=
   writeIntro h.nEntries h.dataSize ++ (h.entries.map writeEntry).flatten ++ h.store
@@ -237,6 +369,41 @@ def writeMetadata (m : Metadata) : Bytes := writeLead m.lead ++ writeSignature m
 def parsePackage (bs : Bytes) : Out Package := do
   let (m, r) ← parseMetadata bs
   pure ⟨m, r⟩
+
+/-! ## allocation account of `PackageMetadata::parse` / `Package::parse` -/
+
+/-- the header accounts in call order (signature header, then — if that one was accepted and its padding is there — the
+main header) and the bytes `read_to_end` keeps as `content` -/
+structure PkgAcct where
+  headers : List ParseAcct
+  content : Nat
+  deriving Repr, DecidableEq
+
+/-- same control flow as `parseMetadata` / `parsePackage` (the lead is a 96-byte array on the stack) -/
+def parsePackageAcct (bs : Bytes) : PkgAcct :=
+  match takeN LEAD_SIZE bs with
+  | .ok (lb, r) =>
+    match parseLead lb with
+    | .ok _ =>
+      match parseSignature r with
+      | .ok (_, r2) =>
+        match parseHeader r2 with
+        | .ok (_, rest) => ⟨[parseHeaderAcct r, parseHeaderAcct r2], rest.length⟩
+        | _ => ⟨[parseHeaderAcct r, parseHeaderAcct r2], 0⟩
+      | _ => ⟨[parseHeaderAcct r], 0⟩
+    | _ => ⟨[], 0⟩
+  | _ => ⟨[], 0⟩
+
+/-- decoded entry data the package value keeps (the part that is not linear in the input) -/
+def PkgAcct.dataKept (p : PkgAcct) : Nat := (p.headers.map fun a => a.kept).sum
+/-- bytes the parsed value keeps: stores, entry values, decoded data, content (a lower bound of the real heap use:
+capacities are at least lengths) -/
+def PkgAcct.kept (p : PkgAcct) : Nat :=
+  (p.headers.map fun a => a.storeCopy + INDEX_ENTRY_VALUE_BYTES * a.entries + a.kept).sum + p.content
+/-- everything the account knows of, as if alive together (buffers included) -/
+def PkgAcct.live (p : PkgAcct) : Nat := (p.headers.map ParseAcct.live).sum + p.content
+/-- largest single request of any header parse, or the content -/
+def PkgAcct.maxSingle (p : PkgAcct) : Nat := (p.headers.map ParseAcct.maxSingle).foldl Nat.max p.content
 
 /-- `Package::write` -/
 def writePackage (p : Package) : Bytes := writeMetadata p.md ++ p.content
